@@ -63,14 +63,17 @@ int main(int argc, char **argv) {
     volatile unsigned long x = 0;
     for (;;) x++;
   }
-  if (!strcmp(m, "cpufor")) { // burn user CPU for N ms, then exit 0
+  if (!strcmp(m, "cpufor")) { // burn user CPU for N ms, then end (default exit 0)
     long ms = atol(argv[2]);
     struct timespec t;
     volatile unsigned long x = 0;
     for (;;) {
       for (int i = 0; i < 100000; i++) x++;
       clock_gettime(CLOCK_PROCESS_CPUTIME_ID, &t);
-      if (t.tv_sec * 1000 + t.tv_nsec / 1000000 >= ms) _exit(0);
+      if (t.tv_sec * 1000 + t.tv_nsec / 1000000 >= ms) {
+        if (argc >= 5) act(argv[3], argv[4]); // optional way of ending: exit N | raise SIG
+        _exit(0);
+      }
     }
   }
   if (!strcmp(m, "grow")) {
@@ -85,6 +88,7 @@ int main(int argc, char **argv) {
     char *p = mmap(0, n, PROT_READ | PROT_WRITE, MAP_PRIVATE | MAP_ANONYMOUS, -1, 0);
     if (p == MAP_FAILED) _exit(93);
     for (unsigned long i = 0; i < n; i += 4096) p[i] = 1;
+    if (argc >= 5) act(argv[3], argv[4]);
     _exit(0);
   }
   if (!strcmp(m, "write")) {
